@@ -178,7 +178,8 @@ static void multi_run(int run, int kind, vt::rng& g)
                 .i("vfin", fin ? 1 : 0).i("v", fin ? vt::exact_scaled(T(fs.v) * weight, 2) : 0).emit();
         }
         ++call;
-        return T(1);
+        // what is handed to the projector is binned whatever the integrand itself returns (here: zero for every fourth call)
+        return call % 4 == 0 ? T() : T(1);
     };
     std::vector<hep::distribution_result<T>> out;
     if (kind == 0)
